@@ -7,6 +7,12 @@ package bcl
 
 //@ group C19
 //@ ghost var execs int   // number of Execute calls made (specification only)
+//@ ghost var xres []Block     // what the most recent execute returned
+//@ ghost var xbind Binding
+//@ ghost var xerr error
+//@ ghost var ev_send_c int    // Parse: chunks sent to the lexer
+//@ ghost var ev_sent_c string
+//@ ghost var ev_close_c int
 
 // ---------------------------------------------------------------------------
 // options only set flags and writers (C19)
@@ -44,10 +50,13 @@ package bcl
 //@ func execute
 //@   requires program_complete: p != nil && p.linePos != nil
 //@   assert [C03] results_returned_even_with_error: result0 == vm.result && result1 == vm.binding && result3 == err
+//@   ghost xres = result0; xbind = result1; xerr = result3
 //
 //@ func Execute
 //@   requires no_nil_option: forall i int :: 0 <= i && i < len(opts) ==> opts[i] != nil
 //@   requires program_complete: prog != nil && prog.linePos != nil
+//@   ensures [C03,C04,C05] hands_back_exactly_what_the_machine_produced_also_with_an_error: result0 == g.xres && result1 == g.xbind && result2 == g.xerr
+//@   assert [C03,C16,C12] runs_the_given_program: at execute#1: $p == prog
 //@   ghost execs = g.execs + 1
 //
 //@ func parseWithOpts
@@ -58,6 +67,10 @@ package bcl
 //@   ghost parsed_err = result1
 //
 //@ func Parse
+//@   ghostinit ev_send_c = 0; ev_close_c = 0
+//@   ensures [C07] the_lexer_gets_one_chunk_and_then_the_end: g.ev_send_c == 1 && g.ev_close_c == 1
+//@   ensures [C07] the_chunk_has_the_length_of_the_input: len(g.ev_sent_c) == len(input)
+//@   ensures [C07] the_chunk_is_exactly_the_given_bytes: forall i int :: 0 <= i && i < len(input) ==> g.ev_sent_c[i] == old(input[i])
 //@   requires no_nil_option: forall i int :: 0 <= i && i < len(opts) ==> opts[i] != nil
 //@   ensures [C17] error_iff_diagnostic: ((result1 != nil) <==> g.diags > 0) && g.diags >= 0
 //@   ensures result0 != nil
@@ -66,7 +79,7 @@ package bcl
 //@ func LoadProg
 //@   requires no_nil_option: forall i int :: 0 <= i && i < len(opts) ==> opts[i] != nil
 //@   requires reader_given: r != nil
-//@   requires fresh_stream: g.rp == 0 && !g.short && g.rlen >= 0
+//@   requires fresh_stream: g.rp == 0 && !g.short && g.rlen >= 0 && !g.rfail
 //@   ensures [C09,C06] complete_when_ok: result0 != nil && (result1 == nil ==> dumpable(result0))
 //@   ensures [C13,C09] the_loader_s_verdict_is_returned: result1 == g.loaderr
 //@   assert [C13,C09] loads_the_given_stream_once: at Load#1: true
